@@ -1504,7 +1504,7 @@ _CROSS = {'reuse': 0.28, 'reuse_inputs': 0.28, 'reuse_system': 0.14, 'nt_reuse':
           'sym_relabel': 0.16}
 # whole-number positions handed to the free functions in narrow / unsigned / big-endian integer dtypes (kind intcart only)
 _NARROW = {'arg_narrowint': 0.0035, 'arg_unsigned': 0.002, 'arg_int8_16': 0.0025, 'arg_at_limit': 0.0035, 'arg_npscalars': 0.0008}
-_COMMON = dict(_ROUTES, **_CROSS, **_SHAPES, **_HIST, **_UNITS, **_PROC, nt=0.36, nt_mixed=0.36, tilted=0.33, rotated=0.19, origin=0.23, kind_dyadic=0.06,
+_COMMON = dict(_ROUTES, **_CROSS, **_SHAPES, **_HIST, **_UNITS, **_PROC, nt=0.36, nt_mixed=0.36, tilted=0.33, rotated=0.17, origin=0.2, kind_dyadic=0.04,
                kind_intcart=0.045)
 _FORMS = {'spell_fview': 0.03, 'spell_tuple': 0.03, 'spell_list': 0.03, 'spell_intlist': 0.03, 'spell_readonly': 0.03,
           'spell_forder': 0.03, 'spell_intarray': 0.03, 'int_given_positions': 0.012}
